@@ -131,7 +131,10 @@ def run_faulted_histories(pid, spec, res, make_gen, state_problems,
                              resp.status // 100)
                     if 200 <= resp.status < 300:
                         res.count('faulted_requests_answered_2xx')
-                probs = state_problems(d)
+                try:
+                    probs = state_problems(d, before, req, resp)
+                except TypeError:
+                    probs = state_problems(d)
                 twin = ''
                 if probs and fired:
                     # what does the same request do without the fault?  A
